@@ -35,6 +35,7 @@ let handle = function
     (match c06_render (kind_n k) (List.map op_of ops) with Ok t -> hx t | Err _ -> "Err" | Panic _ -> "Panic" | OutOfFuel -> "OutOfFuel")
   | ["txt"; h] ->
     show_o (fun l -> String.concat "," (List.map hx l)) (c06_txt (txt ". 0 IN TXT x" @ bytes_of_hex h @ [n_of_int 10]))
+  | ["hinfo"; q; h] -> show_o hx (c06_hinfo (q = "q") (bytes_of_hex h))
   | "rec" :: k :: code :: cl :: ttl :: ow :: fs ->
     let fld (w : string) : fval =
       let a = String.sub w 1 (String.length w - 1) in
